@@ -15,7 +15,6 @@ var noopFuncs = map[string]bool{
 	"(*sync.Mutex).Lock": true, "(*sync.Mutex).Unlock": true,
 	"(*sync.RWMutex).Lock": true, "(*sync.RWMutex).Unlock": true, "(*sync.RWMutex).RLock": true, "(*sync.RWMutex).RUnlock": true,
 	"(*sync.WaitGroup).Add": true, "(*sync.WaitGroup).Done": true,
-	"(*sync.Cond).Signal": true, "(*sync.Cond).Broadcast": true,
 	"(*github.com/Fantom-foundation/lachesis-base/utils.SpinLock).Lock":   true,
 	"(*github.com/Fantom-foundation/lachesis-base/utils.SpinLock).Unlock": true,
 	"(sync.Locker).Lock": true, "(sync.Locker).Unlock": true,
